@@ -81,7 +81,7 @@ func init() {
 	})
 	register(&Prop{
 		ID:    "C04",
-		Rules: []func(*core.Ctx){RAcc, RAccCap, RNarrow, RAltMerge, ROptLoop, RNegChars, RDefault, RCompl, RNegFresh, RAltAll, RByteRune, RRuneCut, RMaxAsMin, RCatsToo, RScratch},
+		Rules: []func(*core.Ctx){RAcc, RAccCap, RNarrow, RAltMerge, ROptLoop, RNegChars, RDefault, RCompl, RNegFresh, RAltAll, RByteRune, RRuneCut, RMaxAsMin, RCatsToo, RScratch, RFailFirst},
 		Explanation: "Shape conditions every prefix / set / length analysis must meet for what it publishes to be an over-approximation: R-ACC (accumulate-until-stop protocol on SSA paths), R-ACCCAP (a capped loop expansion reports 'fully processed' only through the cap), R-NARROW (the shared prefix of an alternation only shrinks), R-ALTMERGE (an offset is common to all branches only if every branch was merged), R-OPTLOOP (a loop's child is required only under M > 0), R-NEGCHARS (callers of GetSetChars consult IsNegated), R-DEFAULT (unknown node kinds yield 'know nothing'), R-COMPL (complement-of-one-character constructions guard each half by its own constant end), R-NEGFRESH (the negate flag is set only on sets created on the spot or known empty). " +
 			"That the recorded strings, sets and lengths are right for the pattern's language is a semantic property and is NOT decided.",
 	})
